@@ -40,7 +40,8 @@ def strategy_(draw, tier):
             "space": draw(st.sampled_from(["feature", "sample"])),
             "alpha": draw(st.sampled_from([1e-6, 1e-2, 1.0])),
             "mixing": draw(st.sampled_from([0.0, 0.1, 0.3, 0.5, 0.7, 0.9, 1.0])),
-            "grid": grid, "cseed": draw(gen.SEEDS), "klr_extra": draw(st.integers(0, 1)), "prior_use": draw(st.booleans())}
+            "grid": grid, "cseed": draw(gen.SEEDS), "klr_extra": draw(st.integers(0, 1)), "prior_use": draw(st.booleans()),
+            "reuse_estimator": draw(st.booleans())}
 
 
 def strategy(tier):
@@ -162,15 +163,28 @@ def check(case, ctx):
 
     # (iv) monotone trade-off along the mixing grid ------------------------------------------------------------
     lxs, lys = [], []
+    shared = PCovR(mixing=0.5, n_components=k, space=space, regressor=reg, svd_solver="full") if case.get("reuse_estimator") else None
+    if shared is not None:
+        ctx.cls("grid_on_one_estimator")
     for mm in case["grid"]:
         with ctx.lib("fit(grid)"):
-            pg = PCovR(mixing=float(mm), n_components=k, space=space, regressor=reg, svd_solver="full").fit(X, Y)
+            if shared is not None:      # the natural loop: one estimator, set_params(mixing=...).fit(...)
+                pg = shared.set_params(mixing=float(mm)).fit(X, Y)
+            else:
+                pg = PCovR(mixing=float(mm), n_components=k, space=space, regressor=reg, svd_solver="full").fit(X, Y)
             Tg = pg.transform(X)
         wg = pc.ktilde_eig(X, Yhat, mm)[0]
         Qg = frame_of(Tg, max(wg[0], 1e-300))
         a_, b_ = losses(Qg, X, Yhat)
         lxs.append(a_)
         lys.append(b_)
+        # each point of the grid is itself optimal for its own mixing (Ky-Fan bound)
+        if wg[0] > 0:
+            nrk = int((wg / wg[0] > 1e-8).sum())
+            bestg = float(mm * nX2 + (1 - mm) * float((Yhat ** 2).sum()) - wg[: min(k, nrk)].sum())
+            valg = mm * a_ + (1 - mm) * b_
+            ctx.true("optimal-value(grid)", valg <= bestg + 1e-8 * max(1.0, abs(bestg), nX2),
+                     "mixing %g on the grid: objective %.10g exceeds the optimum %.10g" % (mm, valg, bestg))
     t = 1e-7 * max(1.0, nX2)
     dx, dy = np.diff(lxs), np.diff(lys)
     ctx.true("monotone:X-loss", bool(np.all(dx <= t)), "X reconstruction loss increases with mixing: %s at %s" % (np.round(lxs, 8).tolist(), case["grid"]))
